@@ -142,9 +142,12 @@ pub unsafe fn BN_num_bytes(bn: *const BIGNUM) -> c_uint {
 pub unsafe fn BN_bn2bin(in_: *const BIGNUM, out: *mut u8) -> usize {
     assert!(!in_.is_null() && !(*in_).freed, "BN_bn2bin on a null or freed BIGNUM");
     let n = sig_bytes(&(*in_).v);
+    // fixed trip count (n is symbolic: a `while i < n` loop would unroll to the unwind bound)
     let mut i = 0;
-    while i < n {
-        *out.add(i) = (*in_).v[48 - n + i];
+    while i < 48 {
+        if i < n {
+            *out.add(i) = (*in_).v[48 - n + i];
+        }
         i += 1;
     }
     n
@@ -195,11 +198,12 @@ pub unsafe fn EC_POINT_mul(group: *const EC_GROUP, r: *mut EC_POINT, n: *const B
         zero &= (*n).v[i] == 0;
         i += 1;
     }
-    if zero {
-        (*r).infinity = true;
-    } else {
-        (*r).infinity = false;
-        (*r).c = public_of(&(*n).v);
+    // the ideal function is queried on every path (its result is ignored for the zero scalar): a
+    // path-dependent number of oracle queries would make the oracle's table length symbolic
+    let c = public_of(&(*n).v);
+    (*r).infinity = zero;
+    if !zero {
+        (*r).c = c;
     }
     1
 }
@@ -346,11 +350,11 @@ pub unsafe fn ECDSA_size(key: *const EC_KEY) -> usize {
 }
 pub unsafe fn ECDSA_sign(_type: c_int, digest: *const u8, digest_len: usize, sig: *mut u8, sig_len: *mut c_uint, key: *const EC_KEY) -> c_int {
     assert!(!key.is_null() && !(*key).freed && !sig.is_null() && !sig_len.is_null());
+    let d = core::slice::from_raw_parts(digest, digest_len);
+    let b = sig_of(&(*key).pub_.c, d);
     if !(*key).has_priv || !(*key).has_pub || (*key).pub_.infinity {
         return 0;
     }
-    let d = core::slice::from_raw_parts(digest, digest_len);
-    let b = sig_of(&(*key).pub_.c, d);
     let mut i = 0;
     while i < 96 {
         *sig.add(i) = b[i];
@@ -361,11 +365,11 @@ pub unsafe fn ECDSA_sign(_type: c_int, digest: *const u8, digest_len: usize, sig
 }
 pub unsafe fn ECDSA_verify(_type: c_int, digest: *const u8, digest_len: usize, sig: *const u8, sig_len: usize, key: *const EC_KEY) -> c_int {
     assert!(!key.is_null() && !(*key).freed && !sig.is_null());
+    let d = core::slice::from_raw_parts(digest, digest_len);
+    let want = sig_of(&(*key).pub_.c, d);
     if sig_len != 96 || !(*key).has_pub || (*key).pub_.infinity {
         return 0;
     }
-    let d = core::slice::from_raw_parts(digest, digest_len);
-    let want = sig_of(&(*key).pub_.c, d);
     let mut eq = true;
     let mut i = 0;
     while i < 96 {
@@ -447,9 +451,6 @@ pub unsafe fn ECDH_compute_key(
     kdf: Option<unsafe extern "C" fn(in_: *const c_void, inlen: usize, out: *mut c_void, outlen: *mut usize) -> *mut c_void>,
 ) -> c_int {
     assert!(kdf.is_none() && !pub_key.is_null() && !(*pub_key).freed && !priv_key.is_null() && !(*priv_key).freed);
-    if (*pub_key).infinity || !(*priv_key).has_priv || outlen < 48 {
-        return -1;
-    }
     let a = public_of(&(*priv_key).priv_.v);
     let p = (*pub_key).c;
     let mut a_first = true;
@@ -464,6 +465,9 @@ pub unsafe fn ECDH_compute_key(
     }
     let t = if a_first { Transcript::of(&[&a, &p]) } else { Transcript::of(&[&p, &a]) };
     let o = oracle(D_P384_DH, &t);
+    if (*pub_key).infinity || !(*priv_key).has_priv || outlen < 48 {
+        return -1;
+    }
     let dst = out as *mut u8;
     let mut i = 0;
     while i < 48 {
